@@ -20,14 +20,15 @@ type c20Case struct {
 	Path  []int  `json:"path"` // index into the deterministic enumeration: [type ordinal, value ordinal]
 	Desc  string `json:"desc"`
 	Depth int    `json:"depth"`
+	Width int    `json:"width"`
 }
 
 func init() {
 	mc.Register(&mc.Property{
 		ID:    "C20",
 		Level: "exploration",
-		Rule: "E1 bounded-exhaustive enumeration of the kind grammar T ::= scalar | string | [k]T | []T | map[K]T | *T | interface{} | struct{T,…} built with reflect to depth D: all 17 scalar kinds (bool, int8..64, int, uint8..64, uint, uintptr, float32/64, complex64/128) at every leaf position of depth-1 composites, a 6-type subset below; arrays of 0 and 2 elements; struct arity 1 and 2; map keys string/int32/uint; " +
-			"values per type from a shape alphabet (slices nil/empty/1/2 elements, maps nil/empty/1/2 entries, pointers nil/non-nil, interfaces nil/scalar/string/pointer/struct, strings \"\",\"a\",\"abc\"). Oracle: the generator returns (value, size) and computes the size while building (headers 16/24/8/8/16, 8 for int/uint/uintptr; 64-bit platform asserted). size.Of on every value; Stat(v,d,m) for d in {0,1,3}, m in {0,1,10} and the AvgOf form: the number on the first line equals the expected size. " +
+		Rule: "E1 bounded-exhaustive enumeration of the kind grammar T ::= scalar | string | [k]T | []T | map[K]T | *T | interface{} | struct{T,…} built with reflect to depth 3 (thorough 4) (every depth-1 type, then W types spread over each level as elements of the next): all 17 scalar kinds (bool, int8..64, int, uint8..64, uint, uintptr, float32/64, complex64/128) at every leaf position of depth-1 composites, a 7-type leaf subset plus 9 types of the previous level for binary structs; arrays of 0 and 2 elements; struct arity 1 and 2; map keys string/int32/uint; " +
+			"values per type from a shape alphabet (slices nil/empty/1/2 elements, maps nil/empty/1/2 entries, pointers nil/non-nil, interfaces nil/scalar/string/pointer/struct, strings \"\",\"a\",\"abc\" and 40 bytes; over leaf types also slices of 9 and 70 elements and maps of 9 and 40 entries; pointer values are deliberately REUSED in both elements of arrays and both fields of structs, so shared acyclic pointers occur). Oracle: the generator returns (value, size) and computes the size while building (headers 16/24/8/8/16, 8 for int/uint/uintptr; 64-bit platform asserted). size.Of on every value; Stat(v,d,m) for d in {0,1,3}, m in {0,1,10} and the AvgOf form: the number on the first line equals the expected size. " +
 			"A case is one (value, function) pair; non-trivial when the type is composite.",
 		Assumptions: []string{
 			"64-bit platform (asserted at start)",
@@ -66,7 +67,7 @@ func c20Scalars() []c20Type {
 
 func c20String() c20Type {
 	t := c20Type{t: reflect.TypeOf("")}
-	for _, s := range []string{"", "a", "abc"} {
+	for _, s := range []string{"", "a", "abc", "0123456789012345678901234567890123456789"} {
 		t.vals = append(t.vals, c20Val{reflect.ValueOf(s), 16 + len(s), fmt.Sprintf("%q", s)})
 	}
 	return t
@@ -136,6 +137,19 @@ func c20Unary(e c20Type) []c20Type {
 		v2.Index(0).Set(a.v)
 		v2.Index(1).Set(b.v)
 		ct.vals = append(ct.vals, c20Val{v2, 24 + a.size + b.size, "[]{" + a.desc + "," + b.desc + "}"})
+		if !e.composite || e.t == c20Iface {
+			// long slices over leaf types: 9 and 70 elements cycling through the element values
+			for _, n := range []int{9, 70} {
+				v := reflect.MakeSlice(t, n, n)
+				sz := 24
+				for i := 0; i < n; i++ {
+					a := e.vals[i%len(e.vals)]
+					v.Index(i).Set(a.v)
+					sz += a.size
+				}
+				ct.vals = append(ct.vals, c20Val{v, sz, fmt.Sprintf("[]%s{%d elements cycling through its values}", e.t, n)})
+			}
+		}
 		out = append(out, ct)
 	}
 	// maps
@@ -161,6 +175,30 @@ func c20Unary(e c20Type) []c20Type {
 		m2.SetMapIndex(k.k1, a.v)
 		m2.SetMapIndex(k.k2, b.v)
 		ct.vals = append(ct.vals, c20Val{m2, 8 + k.s1 + a.size + k.s2 + b.size, t.String() + "{k1:" + a.desc + ",k2:" + b.desc + "}"})
+		if !e.composite || e.t == c20Iface {
+			// 9 and 40 entries: beyond one 8-entry bucket of the runtime's map layout
+			for _, n := range []int{9, 40} {
+				m := reflect.MakeMap(t)
+				sz := 8
+				for i := 0; i < n; i++ {
+					var kv reflect.Value
+					ks := 0
+					switch k.k1.Kind() {
+					case reflect.String:
+						key := fmt.Sprintf("key%02d", i)
+						kv, ks = reflect.ValueOf(key), 16+len(key)
+					case reflect.Int32:
+						kv, ks = reflect.ValueOf(int32(100+i)), 4
+					default:
+						kv, ks = reflect.ValueOf(uint(100+i)), 8
+					}
+					av := e.vals[i%len(e.vals)]
+					m.SetMapIndex(kv, av.v)
+					sz += ks + av.size
+				}
+				ct.vals = append(ct.vals, c20Val{m, sz, fmt.Sprintf("%s{%d entries}", t, n)})
+			}
+		}
 		out = append(out, ct)
 	}
 	// pointers
@@ -204,39 +242,34 @@ func c20Struct(fs ...c20Type) c20Type {
 	return ct
 }
 
-// c20Types enumerates the grammar to the given depth, deterministically.
-func c20Types(depth int) (all []c20Type, perDepth []int) {
+// c20Types enumerates the grammar to the given depth, deterministically. width
+// bounds how many types of a level are used as elements of the next one (the
+// first level is always used completely).
+func c20Types(depth, width int) (all []c20Type, perDepth []int) {
 	leaves := append(c20Scalars(), c20String(), c20InterfaceT())
 	all = append(all, leaves...)
 	perDepth = append(perDepth, len(leaves))
-	// the subset used below depth 1: int8, int64, uint, float32, string, interface{}
-	sub := func(ts []c20Type) []c20Type {
-		if len(ts) <= 8 {
+	spread := func(ts []c20Type, n int) []c20Type {
+		if len(ts) <= n {
 			return ts
 		}
 		var out []c20Type
-		step := len(ts) / 7
-		for i := 0; i < len(ts) && len(out) < 8; i += step {
-			out = append(out, ts[i])
+		for i := 0; i < n; i++ {
+			out = append(out, ts[i*len(ts)/n])
 		}
 		return out
 	}
+	// leaf subset for binary structs: int8, int64, uint, uintptr, float32, string, interface{}
 	subLeaves := []c20Type{leaves[1], leaves[4], leaves[10], leaves[11], leaves[12], leaves[16], leaves[17]}
 	prev := leaves
 	for d := 1; d <= depth; d++ {
 		var cur []c20Type
-		elems := prev
-		if d >= 2 {
-			// below depth 1 composites are built over: the leaf subset's composites …
-			elems = prev
-		}
-		for _, e := range elems {
+		for _, e := range prev {
 			cur = append(cur, c20Unary(e)...)
 		}
-		// binary structs over a subset of (leaves ∪ previous level)
-		pool := append(append([]c20Type{}, subLeaves...), sub(prev)...)
-		if d == 1 {
-			pool = subLeaves
+		pool := subLeaves
+		if d > 1 {
+			pool = append(append([]c20Type{}, subLeaves...), spread(prev, 9)...)
 		}
 		for _, a := range pool {
 			for _, b := range pool {
@@ -245,43 +278,9 @@ func c20Types(depth int) (all []c20Type, perDepth []int) {
 		}
 		all = append(all, cur...)
 		perDepth = append(perDepth, len(cur))
-		// the next level is built over a bounded subset of this one plus nothing else
-		if d == 1 {
-			// keep only composites over the leaf subset (and all binary structs) as elements for depth 2
-			var keep []c20Type
-			subSet := map[reflect.Type]bool{}
-			for _, s := range subLeaves {
-				subSet[s.t] = true
-			}
-			for _, ct := range cur {
-				if c20Over(ct.t, subSet) {
-					keep = append(keep, ct)
-				}
-			}
-			prev = keep
-		} else {
-			prev = sub(cur)
-		}
+		prev = spread(cur, width)
 	}
 	return all, perDepth
-}
-
-// c20Over reports whether a depth-1 composite is built over the leaf subset only.
-func c20Over(t reflect.Type, ok map[reflect.Type]bool) bool {
-	switch t.Kind() {
-	case reflect.Array, reflect.Slice, reflect.Ptr:
-		return ok[t.Elem()]
-	case reflect.Map:
-		return ok[t.Elem()]
-	case reflect.Struct:
-		for i := 0; i < t.NumField(); i++ {
-			if !ok[t.Field(i).Type] {
-				return false
-			}
-		}
-		return true
-	}
-	return false
 }
 
 func sizeOf(x interface{}) (r int, p string) {
@@ -381,8 +380,9 @@ func c20Run(c *mc.Ctx) {
 	if unsafe.Sizeof(uintptr(0)) != 8 {
 		panic("harness: C20 assumes a 64-bit platform")
 	}
-	D := c.Pick(2, 3)
-	types, per := c20Types(D)
+	D, W := c.Pick(3, 4), 600
+	types, per := c20Types(D, W)
+	c.Set("types_used_as_elements_per_level", W)
 	c.Set("type_depth", D)
 	c.Set("types", len(types))
 	c.Set("types_per_depth", per)
@@ -426,7 +426,7 @@ func c20Run(c *mc.Ctx) {
 					full = 1
 				}
 				evals += full - e
-				c.Fail(int64(ti)<<16|int64(vi), "value", class, c20Case{Path: []int{ti, vi}, Desc: v.desc, Depth: D}, g, w)
+				c.Fail(int64(ti)<<16|int64(vi), "value", class, c20Case{Path: []int{ti, vi}, Desc: v.desc, Depth: D, Width: W}, g, w)
 			}
 			if t.composite {
 				nontriv += e
@@ -449,7 +449,7 @@ func c20Judge(kind string, cs c20Case) (got, want string) {
 		g, p := sizeOf(nil)
 		return fmt.Sprintf("Of=%s%d", p, g), "Of=0"
 	}
-	types, _ := c20Types(cs.Depth)
+	types, _ := c20Types(cs.Depth, cs.Width)
 	if cs.Path[0] >= len(types) || cs.Path[1] >= len(types[cs.Path[0]].vals) {
 		return "case does not exist in this enumeration", ""
 	}
